@@ -109,6 +109,50 @@ def chiaverini_hughes(chk, prog):
         chk.ob("INVERT", f.ref + "::Nx3x3", "E(%s(E(Q))[i]) == E(Q[i]) (Nx3x3 arm)" % name, batch, construct="inversion Nx3x3", **kw)
 
 
+def gate_bands(chk, prog, pid="C02", names=("hughes", "chiaverini"), limit_pi=1e-6, limit_0=1e-12):
+    """BAND.gate: every np.isclose/np.allclose gate met by the closed-form methods on E(q), mapped to the rotation-angle band it captures.
+    A gate closing at the half-turn may only capture angles beyond the stated domain (pi - 1e-6); one closing at the identity must be (almost) empty."""
+    from sa.lib import collect_gates, gate_angle_band
+    q, q2 = unit_syms("sq"), unit_syms("sr")
+    R, R2 = E_ref(q), E_ref(q2)
+    qn = [str(x) for x in q]
+    out = {}
+    for name in names:
+        f = prog.func(ORI + "::" + name)
+        for arm, args in (("3x3", lambda: [R.copy()]), ("Nx3x3", lambda: [np.stack([R, R2])])):
+            try:
+                gates = collect_gates(lambda oracle, f=f, args=args: Interp(prog, oracle=oracle).run(f, args()))
+            except Exception as e:
+                chk.error("BAND.gate: %s %s arm not analysable: %s: %s" % (name, arm, type(e).__name__, str(e)[:80]))
+                continue
+            bands = []
+            seen = set()
+            for lhs, rhs, rtol, atol in gates:
+                b = gate_angle_band(lhs, rhs, rtol, atol, qn)
+                if b == "foreign":
+                    continue        # second row of the batch: same code, same gate
+                key = (str(lhs)[:60], str(rhs))
+                if key in seen:
+                    continue
+                seen.add(key)
+                site = "%s::%s::isclose(%s, %s)" % (f.ref, arm, str(lhs)[:40], rhs)
+                if b is None:
+                    chk.record("BAND.gate", site, "gate does not close at the identity or at the half-turn (not a limit shortcut)")
+                    continue
+                limit, width, p_, k_ = b
+                bands.append((limit, width))
+                bound = limit_pi if limit == "pi" else limit_0
+                if width > bound:
+                    why = "the gate |%s - %s| <= %.3g is taken for every rotation within %.3e rad of %s (residual ~ %.3g s^%s): the stated domain needs it below %.1e rad" \
+                          % (str(lhs)[:40], rhs, (atol + rtol * abs(float(rhs.const()))), width, "a half-turn" if limit == "pi" else "the identity", k_ or 0, p_, bound)
+                    chk.record("BAND.gate", site, "tolerance gate captures only angles outside the stated domain", verdict="VIOLATION", detail=why)
+                    chk.finding("BAND.gate", ORI, name, "%s arm: isclose gate closing at %s" % (arm, "pi" if limit == "pi" else "0"), why, line=f.node.lineno)
+                else:
+                    chk.record("BAND.gate", site, "gate captures angles within %.3e rad of %s only (bound %.1e)" % (width, "pi" if limit == "pi" else "0", bound))
+            out[(name, arm)] = bands
+    return out
+
+
 def sarabandi(chk, prog, combos):
     f = prog.func(ORI + "::sarabandi")
     chk.touch(f)
@@ -250,8 +294,11 @@ def canaries(chk, prog):
 
 
 def run(chk, prog, tier):
+    from sa import lints as _lints
+    _lints.domain_guard(chk, prog, refs=['ahrs/common/orientation.py::chiaverini'])
     shepperd(chk, prog)
     chiaverini_hughes(chk, prog)
+    gate_bands(chk, prog)
     # the four threshold tests d? > eta; the fifth comparison (q[0] > 0) is decided generically: q[0] = |w| > 0
     all16 = list(itertools.product((True, False), repeat=4))
     quick = [(True, True, True, True), (False, True, True, True), (True, False, False, False), (False, False, False, False), (False, True, False, True), (True, True, False, False)]
